@@ -57,7 +57,7 @@ func TestC10(t *testing.T) {
 		T, Hd := sh[0], sh[1]
 		mid := (T + Hd) / 2
 		origins := []uint64{0, T - 1, T, T + 1, mid, Hd - 70, Hd - 1, Hd, Hd + 1, Hd + 100, maxu}
-		amounts := []uint64{0, 1, 2, 63, 64, 65, 1000, maxu}
+		amounts := []uint64{0, 1, 2, 63, 64, 65, 1000, 1 << 63, 1<<63 + 7, maxu}
 		for _, o := range origins {
 			for _, a := range amounts {
 				mon.Emit(r, "request", c10P{Tail: T, Head: Hd, Kind: "range", Origin: o, Amount: a}, "request")
@@ -68,7 +68,7 @@ func TestC10(t *testing.T) {
 				mon.Emit(r, "request", c10P{Tail: T, Head: Hd, Kind: "hash", Hash: hk, HashH: mid, Amount: a}, "request")
 			}
 		}
-		for _, raw := range []string{"truncated", "oversized", "garbage", "noclose", "empty", "nodata"} {
+		for _, raw := range []string{"truncated", "oversized", "garbage", "noclose", "empty", "nodata", "split-stop"} {
 			mon.Emit(r, "request", c10P{Tail: T, Head: Hd, Kind: "raw", Raw: raw}, "request")
 			mon.Emit(r, "request", c10P{Tail: T, Head: Hd, Kind: "raw", Raw: raw, Prior: 3}, "request")
 		}
@@ -171,6 +171,7 @@ func c10Run(c *mon.Case, p c10P) {
 		}
 
 		var payload []byte
+		splitStop := false
 		closeWrite := true
 		amount := p.Amount
 		var wantHash []byte
@@ -219,6 +220,11 @@ func c10Run(c *mon.Case, p c10P) {
 			case "noclose":
 				payload = encodeReq(originReq(p.Tail, 2))[:3]
 				closeWrite = false
+			case "split-stop":
+				// a complete, valid request whose last byte only arrives after the server was stopped
+				full := encodeReq(originReq(p.Tail, 2))
+				payload = full
+				splitStop = true
 			case "empty":
 				payload = simnet.Frame(nil)
 			case "nodata":
@@ -236,6 +242,26 @@ func c10Run(c *mon.Case, p c10P) {
 			}
 		}
 		limit := c10Read + c10Req + c10Write
+		if splitStop {
+			// all but the last byte, Stop, then the last byte: the handler that is still reading must not crash the node
+			sctx, sc := context.WithTimeout(context.Background(), limit)
+			s, err := w.Hosts[1].NewStream(sctx, w.Hosts[0].ID(), simnet.ProtocolID)
+			sc()
+			if err == nil {
+				_, _ = s.Write(payload[:len(payload)-1])
+				synctest.Wait()
+				_ = srv.Stop(context.Background())
+				synctest.Wait()
+				_, _ = s.Write(payload[len(payload)-1:])
+				_ = s.CloseWrite()
+				time.Sleep(limit)
+				synctest.Wait()
+				_ = s.Reset()
+			}
+			c.Count("requests_completed_after_stop", 1)
+			c.Class("tail=%d raw split-stop", p.Tail)
+			return
+		}
 		rep := rawRequest(w, 1, 0, payload, closeWrite, limit+5*time.Second)
 		synctest.Wait()
 		c.Count("requests", 1)
